@@ -1501,7 +1501,7 @@ def run(ctx):
         ctx.count('tasks_generated', rec['ntasks'] - len(case['base']))
         ctx.case_seen(case, nontrivial=rec['hits'] > 0 and rec['ntasks'] - len(case['base']) >= 2,
                       sample_every=499)
-    shard_size = 250
+    shard_size = 90
     shards = []
     cases = cases[:len(records)]
     # a case in which the execution of a task was skipped (file name too long for the platform)
